@@ -13,6 +13,7 @@ Print Assumptions C20_fault_after_has_effect.
 (* ---- with faults at every scheduler-issued call (Proofs/SysProofs.v): the invariants of C04 / C06 are
    proved for EVERY accepted trace, fault labels included ---- *)
 From GK.Proofs Require Import SysProofs.
+From GK.Proofs Require RestProofs LiveProofs.
 
 Theorem C20_no_double_or_cancelled_run_under_faults : forall tr s,
   srun sys_init tr = Some s -> srun_ok sys_init tr -> c04_ok tr = true.
@@ -34,3 +35,15 @@ Theorem C20_retry_is_necessary :
   end = ([("a", Dispatched)], PSelect, [], [], [], [], timer_idle).
 Proof. exact lost_task_after_fault. Qed.
 Print Assumptions C20_retry_is_necessary.
+
+(* "Once the faults stop, a driver that retries failed steps brings every due task to a recorded outcome": after ANY
+   accepted trace - with whatever faults - every fault-free schedule of the driver and the workers is bounded and ends
+   at rest (Proofs/LiveProofs.v), where nothing due is left scheduled and (Props/C06.v) every finished run is recorded
+   and reported once *)
+Theorem C20_recovery_terminates : forall tr s q s',
+  SysProofs.srun sys_init tr = Some s -> SysProofs.srun_ok sys_init tr ->
+  Forall LiveProofs.driver_label q -> SysProofs.srun s q = Some s' ->
+  (List.length q + LiveProofs.mu s' <= LiveProofs.mu s)%nat
+  /\ (LiveProofs.at_rest s' \/ exists l s'', LiveProofs.driver_label l /\ SysProofs.sstepf s' l = Some s'' /\ RestProofs.disc s' l).
+Proof. exact LiveProofs.C05_every_schedule_terminates. Qed.
+Print Assumptions C20_recovery_terminates.
